@@ -76,6 +76,19 @@ def forbidden_scan():
     return hits
 
 
+def modfile_args(tmp):
+    """The harness module replaces the fzf module by /repo; for another tree (VERIF_REPO) a copy
+    of go.mod with the replacement redirected is used (-modfile)."""
+    if os.path.realpath(REPO) == '/repo':
+        return []
+    mf = os.path.join(tmp, 'alt.mod')
+    if not os.path.exists(mf):
+        txt = open(os.path.join(HARNESS, 'go.mod')).read().replace('=> /repo', '=> ' + REPO)
+        open(mf, 'w').write(txt)
+        shutil.copy(os.path.join(REPO, 'go.sum'), os.path.join(tmp, 'alt.sum'))
+    return ['-modfile=' + mf]
+
+
 def regenerate(tmp):
     """Regenerate Fzf/Generated/*.lean from REPO's working tree. Returns (ok, output)."""
     gen_dir = os.path.join(LEAN, 'Fzf', 'Generated')
@@ -86,7 +99,7 @@ def regenerate(tmp):
     out_dir = os.path.join(tmp, 'generated')
     os.makedirs(out_dir, exist_ok=True)
     shutil.copy(os.path.join(REPO, 'go.sum'), os.path.join(HARNESS, 'go.sum'))
-    rc, out = run(['go', 'run', '-tags', 'verif', './extract', REPO, out_dir], cwd=HARNESS, env=GOENV, timeout=600)
+    rc, out = run(['go', 'run'] + modfile_args(tmp) + ['-tags', 'verif', './extract', REPO, out_dir], cwd=HARNESS, env=GOENV, timeout=600)
     if rc != 0:
         return False, out
     produced = set()
@@ -167,7 +180,7 @@ def build_harness(tmp):
     shutil.copy(os.path.join(REPO, 'go.sum'), os.path.join(HARNESS, 'go.sum'))
     dst = os.path.join(tmp, 'harness')
     with Lock(os.path.join(VERIF, '.gobuild.lock')):
-        rc, out = run(['go', 'build', '-tags', 'verif', '-o', dst, '.'], cwd=HARNESS, env=GOENV, timeout=1200)
+        rc, out = run(['go', 'build'] + modfile_args(tmp) + ['-tags', 'verif', '-o', dst, '.'], cwd=HARNESS, env=GOENV, timeout=1200)
     return (dst if rc == 0 else None), out
 
 
